@@ -33,8 +33,8 @@ KINDS = {
 }
 
 
-def mk(sid, prog, consts, files=None, **cfg):
-    cs = {k: A[k] for k in consts if k in A}
+def mk(sid, prog, consts, files=None, binary=False, expect=None, **cfg):
+    cs = {k: ((0, 9) if binary else A[k]) for k in consts if k in A}     # image-level shapes: one path per placement
     if 'n' in consts:
         cs['n'] = (0, 3)
     if 'm' in consts:
@@ -43,8 +43,8 @@ def mk(sid, prog, consts, files=None, **cfg):
     p.update(files or {})
     nz = sum(1 for f in p.values() for st in f if st[0] in ('instr', 'data', 'fill', 'zero') and st != KINDS['z0'])
     nz += len(cfg.get('data_blocks', ()))
-    return LayoutShape(sid, prog=p, cfgargs=dict(consts=cs, **cfg), props=['C04'], binary=False, width=24,
-                       expect=['ok', 'rejected'] if nz >= 2 else ['ok'])
+    return LayoutShape(sid, prog=p, cfgargs=dict(consts=cs, **cfg), props=['C04'], binary=binary, width=24,
+                       expect=expect or (['ok', 'rejected'] if nz >= 2 else ['ok']))
 
 
 def shapes(tier, seed):
@@ -52,7 +52,7 @@ def shapes(tier, seed):
     pairs = [('i3', 'd4'), ('d2', 'i1'), ('zn', 'd4'), ('d4', 'fn'), ('i3', 'z0'), ('zn', 'fn'), ('m2', 'i1'), ('d2', 'm2')]
     for a, b in pairs:
         syms = ['a0', 'a1'] + (['n'] if 'zn' in (a, b) else []) + (['m'] if 'fn' in (a, b) else [])
-        S.append(mk(f'pair:{a}-{b}', [('org', V('a0'), None), KINDS[a], ('org', V('a1'), None), KINDS[b]], syms))
+        S.append(mk(f'pair:{a}-{b}', [('org', V('a0'), None), KINDS[a], ('org', V('a1'), None), KINDS[b]], syms, binary=True))
     triples = [('i3', 'd2', 'd4'), ('d4', 'zn', 'i1'), ('z0', 'd4', 'i3'), ('m2', 'd2', 'i1')]
     if tier != 'quick':
         triples += [('fn', 'i3', 'zn'), ('d2', 'd2', 'd2'), ('i1', 'z0', 'i1')]
@@ -72,6 +72,12 @@ def shapes(tier, seed):
     # predefined data block against a line
     S.append(mk('predef-vs-line', [('org', V('a0'), None), KINDS['d4']], ['a0'],
                 data_blocks=[('blk', Sym('ba', 0, 40), 3, 7)]))
+    # a predefined block that runs past the top of the address space against lines at the bottom: its bytes must not
+    # come back in at address 0
+    S.append(mk('predef-at-top-of-address-space', [('org', V('a0'), None), KINDS['d4'], KINDS['i1']], ['a0'],
+                address_bits=8, binary=True, expect=['ok'], data_blocks=[('blk', Sym('ba', 0xFB, 0xFF), 4, 0x55)]))
+    S.append(mk('predef-vs-two-lines', [('org', V('a0'), None), KINDS['d2'], ('org', V('a1'), None), KINDS['i3']], ['a0', 'a1'],
+                binary=True, data_blocks=[('blk', Sym('ba', 0, 9), Sym('bn', 1, 3), 7)]))
     # zones: a line in zone Z (zone-relative origin) against a line placed absolutely
     S.append(mk('zone-relative-vs-absolute',
                 [('org', V('a0'), 'Z'), KINDS['d2'], ('org', V('a1'), None), KINDS['i3']], ['a0', 'a1'],
